@@ -133,6 +133,7 @@ def cq_case(case, out):
     """Coq term `mk n ptab atab etab history` for Run.C16.judge."""
     univ = case["universe"]
     pidx = {n: i + 1 for i, n in enumerate(univ)}
+    pidx[""] = -1    # pseudo predicate: identity of the stack of loaded fragments (see keyKnown in the harness)
     chunk, path, decl, fact = Intern(), Intern(), Intern(), Intern()
 
     def cq_src(s):
